@@ -6,7 +6,7 @@ import GluonModel.Model.Resp
 
 namespace Gluon
 
-abbrev StateId := Nat
+notation "StateId" => Nat
 
 inductive FlagOp where
   | add | rem | set
@@ -30,6 +30,11 @@ def msgId : Responder → MsgId
 
 def isExpunge : Responder → Bool
   | .expunge _ => true
+  | _ => false
+
+/-- the session's own `.SILENT` store (`asSilent`) -/
+def isSilent : Responder → Bool
+  | .fetch _ _ _ _ s _ => s
   | _ => false
 
 def isExists : Responder → Bool
